@@ -330,6 +330,9 @@ func (rw *rewriter) post(c *astutil.Cursor) bool {
 				n.Fun = rw.vrt("Len")
 			}
 		}
+		if rw.spec.Race {
+			rw.opaqueCall(n)
+		}
 		if rw.spec.Race && len(n.Args) >= 1 {
 			if rw.isBuiltin(n.Fun, "delete") && rw.isMap(n.Args[0]) {
 				n.Args[0] = rw.call("WMap", n.Args[0])
@@ -664,4 +667,42 @@ func (rw *rewriter) raceExpr(c *astutil.Cursor) {
 			}
 		}
 	}
+}
+
+// opaque mutable containers from uninstrumented packages: method calls are
+// recorded as reads/writes of the receiver object.
+var opaqueReadOnly = map[string]map[string]bool{
+	"container/list": {"Len": true, "Front": true, "Back": true, "Next": true, "Prev": true},
+}
+
+func (rw *rewriter) opaqueCall(n *ast.CallExpr) {
+	sel, ok := n.Fun.(*ast.SelectorExpr)
+	if !ok {
+		return
+	}
+	s, ok := rw.info.Selections[sel]
+	if !ok || s.Kind() != types.MethodVal {
+		return
+	}
+	rt := rw.info.TypeOf(sel.X)
+	if rt == nil {
+		return
+	}
+	pt, ok := rt.Underlying().(*types.Pointer)
+	if !ok {
+		return
+	}
+	named, ok := pt.Elem().(*types.Named)
+	if !ok || named.Obj().Pkg() == nil {
+		return
+	}
+	ro, ok := opaqueReadOnly[named.Obj().Pkg().Path()]
+	if !ok {
+		return
+	}
+	fn := "ObjW"
+	if ro[sel.Sel.Name] {
+		fn = "ObjR"
+	}
+	sel.X = rw.call(fn, sel.X)
 }
